@@ -69,7 +69,7 @@ where
     let mut job = Job { property: "C07".into(), scenario: format!("C07:{}:{}", case.name, curve), curve: curve.into(), seed, shape: serde_json::to_value(case).unwrap(), ..Default::default() };
     let k = case.instances.len();
     let maxpad = case.instances.iter().map(|i| i.shape.padded()).max().unwrap_or(1);
-    let pc = PedersenGens::<SymA<C>>::default();
+    let pc = pc_for::<SymA<C>>(&case.name, seed);
     let bp = BulletproofGens::<SymA<C>>::new(maxpad, 1);
     let _bases = name_bases(&pc, &bp, maxpad);
     let mut rng = rand_chacha::ChaChaRng::seed_from_u64(seed ^ 0xc07);
